@@ -95,6 +95,9 @@ impl Prop for C05 {
 			"xz levels 7-9 are not exercised (encoder memory ~0.2-0.7 GiB per block x 16 workers)".into(),
 		]
 	}
+	fn expected_probes(&self) -> Vec<&'static str> {
+		vec!["approx_block_size_zero", "compressed_block_gt_32k_bzip2", "compressed_block_gt_32k_deflate", "compressed_block_gt_32k_snappy", "compressed_block_gt_32k_xz", "compressed_block_gt_32k_zstandard", "decompressed_size_multiple_of_8192", "push_of_zero_objects", "refill_boundary_inside_block_header_trailer_or_sync"]
+	}
 	fn budget(&self, tier: Tier) -> (u64, u64) {
 		match tier {
 			Tier::Quick => (40_000, 75),
